@@ -13,8 +13,11 @@ Definition rsp_ok (log2 : N) (t : table) (qs : list req) (r : rsp) : Prop :=
 Lemma rsp_ok_ext log2 t t' qs r : ext t t' -> rsp_ok log2 t qs r -> rsp_ok log2 t' qs r.
 Proof. intros E [q [H1 [H2 [H3 H4]]]]. exists q. repeat split; try assumption. apply E. exact H4. Qed.
 
+Section WithPre.
+Variable pre : page -> Prop.
+
 Record minv (qs : list req) (m : mmu) : Prop := mk_minv {
-  mi_t : tinv (m_log2 m) (m_alloc m) (m_tab m);
+  mi_t : tinv pre (m_log2 m) (m_alloc m) (m_tab m);
   mi_auto : m_auto m = true;
   mi_out : forall r, In r (m_out m) -> rsp_ok (m_log2 m) (m_tab m) qs r;
   mi_in : forall q, In q (m_in m) -> In q qs;
@@ -48,7 +51,7 @@ Proof.
       split; [exact A|split; [exact B|split; [exact C|split; [exact D|]]]].
       intros w0 [<-|H0]; [cbn [w_req]; apply Hq; left; reflexivity|apply E; exact H0].
     + destruct (resolve o m (w_req w)) as [[oc1 m1] op] eqn:R.
-      destruct (resolve_spec o m (w_req w) oc1 m1 op V (mi_auto qs m M) (mi_t qs m M) R) as [Hoc [HOk HNot]].
+      destruct (resolve_spec pre o m (w_req w) oc1 m1 op V (mi_auto qs m M) (mi_t qs m M) R) as [Hoc [HOk HNot]].
       destruct oc1; try (destruct Hoc; discriminate).
       * (* Ok *)
         destruct (HOk eq_refl) as [x [-> [SC [T1 [E1 A1]]]]].
@@ -188,6 +191,8 @@ Proof.
     + intro H. inversion H; subst. split; [right; reflexivity|split; [exact B|split; [exact C|split; [exact D|]]]].
       intros ob r [].
 Qed.
+
+End WithPre.
 
 (** ---- the allocation loop terminates (while the cursor does not wrap) *)
 Definition above (c : N) (l : list page) : nat := length (filter (fun x => c <=? pg_paddr x) l).
